@@ -100,6 +100,8 @@ ANG = r"(&'[a-z]+ )?(Rad|Deg)<S>"
 
 
 def contracts(unit, im, f):
+    if im is None:
+        return None
     st, self_ref = base_type(im.selfty)
     tn = trait_name(im.trait)
     ta = trait_args(im.trait)
